@@ -211,6 +211,10 @@ class OpsMixin:
         val = self.module_level(relpath, name)
         if val is not None:
             return val[0]
+        try:
+            return exc_class(name)
+        except Unsupported:
+            pass
         raise Unsupported(f"unresolved name '{name}' (line {self.lineno})")
 
     def module_level(self, relpath, name):
@@ -347,9 +351,15 @@ class OpsMixin:
             c = self.truth(self.eval(node.test, env))
             if isinstance(c, bool):
                 return self.eval(node.body if c else node.orelse, env)
-            a = self.resolve(self.eval(node.body, env))
-            b = self.resolve(self.eval(node.orelse, env))
-            return self.ite(c, a, b)
+            a = self.eval(node.body, env)
+            b = self.eval(node.orelse, env)
+            if not isinstance(a, SUnion) and not isinstance(b, SUnion) and a is not None and b is not None:
+                try:
+                    return self.ite(c, a, b)
+                except Unsupported:
+                    pass
+            # not expressible as one term: case split on the condition (sound and complete)
+            return a if self.run.branch(c) else b
         if self.branch_on(node.test, env):
             return self.eval(node.body, env)
         return self.eval(node.orelse, env)
@@ -531,6 +541,8 @@ class OpsMixin:
         b = self.resolve(b)
         if isinstance(a, SOpaque) or isinstance(b, SOpaque):
             return SOpaque("binop")
+        if self.spec and (a is None or b is None):
+            return SInt(z3.Int(self.run.fresh("undefined")) if self.bv is None else z3.BitVec(self.run.fresh("undefined"), self.bv))
         conc_a = isinstance(a, (int, float, str, bytes, tuple)) or a is None
         conc_b = isinstance(b, (int, float, str, bytes, tuple)) or b is None
         if conc_a and conc_b and not (isinstance(a, tuple) or isinstance(b, tuple)):
@@ -560,6 +572,8 @@ class OpsMixin:
             if op == "Add":
                 kind = a.kind if isinstance(a, SSeq) else b.kind
                 return SSeq(z3.Concat(self.to_z3(a, "intseq"), self.to_z3(b, "intseq")), kind)
+        if self.spec and (a is None or b is None):
+            return SInt(z3.Int(self.run.fresh("undefined")) if self.bv is None else z3.BitVec(self.run.fresh("undefined"), self.bv))
         raise Unsupported(f"binary {op} on {pytype_name(a)} and {pytype_name(b)} (line {self.lineno})")
 
     def kind_of(self, v):
@@ -753,6 +767,10 @@ class OpsMixin:
             if isinstance(a, (SObj, SExcClass, SType)) or isinstance(b, (SObj, SExcClass, SType)):
                 r = a is b
                 return r if sym == "==" else not r
+        if self.spec and (a is None or b is None):
+            # a spec term that Python would not evaluate (guarded by an implication / conjunction whose guard
+            # is false on this path): an unconstrained Bool proves nothing and assumes nothing
+            return SBool(z3.Bool(self.run.fresh("undefined")))
         raise Unsupported(f"comparison {sym} of {pytype_name(a)} and {pytype_name(b)} (line {self.lineno})")
 
     def identity(self, a, b):
@@ -833,6 +851,8 @@ class OpsMixin:
         if isinstance(obj, SExc):
             if attr == "args":
                 return tuple(obj.args)
+            if attr in getattr(obj, "kwargs", {}):
+                return obj.kwargs[attr]
             raise Unsupported(f"exception attribute {attr}")
         return self.method_of(obj, attr)
 
@@ -958,7 +978,9 @@ class OpsMixin:
         if isinstance(fn, SClosure):
             return self.call_closure(fn, args, kwargs)
         if isinstance(fn, SExcClass):
-            return SExc(fn, tuple(args))
+            e = SExc(fn, tuple(args))
+            e.kwargs = dict(kwargs)
+            return e
         if isinstance(fn, SType):
             return self.call_type(fn, args, kwargs)
         if isinstance(fn, SOpaque):
